@@ -25,6 +25,7 @@ package metrics
 import (
 	"fmt"
 	"runtime"
+	"sort"
 	"sync"
 	"sync/atomic"
 	"time"
@@ -489,9 +490,17 @@ func (mc *Collector) metricKey(name string, tags map[string]string) string {
 		return name
 	}
 
+	// Map iteration order is random: sort the tag names so that the same name and
+	// tags always give the same key (and therefore the same metric).
+	names := make([]string, 0, len(tags))
+	for k := range tags {
+		names = append(names, k)
+	}
+	sort.Strings(names)
+
 	key := name
-	for k, v := range tags {
-		key += ":" + k + "=" + v
+	for _, k := range names {
+		key += ":" + k + "=" + tags[k]
 	}
 	return key
 }
